@@ -83,9 +83,24 @@ Definition nudged_ops (o : pop) : list pop :=
   | _ => []
   end.
 Definition with_op (c : pcase) (o : pop) : pcase := mkPC (pc_id c) (pc_exact c) (pc_pat c) o (pc_out c) (pc_step c).
+(* The iterator yields shorter and shorter prefixes while they still cover the threshold: when several cumulative sums
+   sit inside the nudge window (tiny peaks), the implementation may stop anywhere between the model's stop at the threshold
+   nudged up and its stop at the threshold nudged down; what it yields must be the corresponding prefix of the longer list. *)
+Definition incr_between (c : pcase) : bool :=
+  match pc_op c, pc_out c with
+  | OpIncr t, OutTips got =>
+      match model_out (with_op c (OpIncr (nudge t 1))), model_out (with_op c (OpIncr (nudge t (-1)))) with
+      | OutTips short, OutTips long =>
+          Nat.leb (length short) (length got) && Nat.leb (length got) (length long)
+          && list_agree (tip_agree f_tol) (firstn (length got) long) got
+      | _, _ => false
+      end
+  | _, _ => false
+  end.
 Definition tie_tol (c : pcase) : bool :=
   out_agree f_tol (model_out c) (pc_out c)
-  || existsb (fun o => out_agree f_tol (model_out (with_op c o)) (pc_out c)) (nudged_ops (pc_op c)).
+  || existsb (fun o => out_agree f_tol (model_out (with_op c o)) (pc_out c)) (nudged_ops (pc_op c))
+  || incr_between c.
 
 (* ---- the properties' specifications, evaluated exactly on the implementation's output ---- *)
 Open Scope Q_scope.
